@@ -41,7 +41,7 @@ theorem causeStream_okOf : ∀ d t b, okOf (causeStream d t b) = refBR d t b := 
       rw [this]
       apply causeFields_okOf
       intro ft bb
-      unfold gFix fixedFn
+      unfold causeField gFix fixedFn
       by_cases hf : fixedSize ft > 0
       · by_cases hl : fixedSize ft ≤ bb.length <;> simp [hf, hl]
       · simp [hf, ih]
